@@ -260,6 +260,7 @@ class World:
     """One execution: loop + net + server + gates + chooser, driven to completion by run()."""
 
     STEP_CAP = 400_000
+    BUSY_CAP = 30_000  # consecutive loop iterations without ever going quiescent: a task spinning without waiting
 
     def __init__(self, scn, chooser, trace=False):
         self.scn = scn
@@ -273,6 +274,7 @@ class World:
         self.main_task = None
         self.capped = False
         self.p_enabled = False
+        self.k_mid = False  # offer k-kind alternatives at non-quiescent iteration boundaries without spending p
         self.app_eager = False
         self.last_dev_t = 0.0  # virtual time of the last deviation from the canonical environment (bounded liveness)
         self.frozen = False  # True: canonical environment, no choice points (used while a client bootstraps)
@@ -346,14 +348,20 @@ class World:
             self.scn.setup(self)
             steps = 0
             stuck_since = (loop._vtime, 0)
+            busy = 0
             while not self.main_task.done():
                 steps += 1
-                if steps > self.STEP_CAP:
+                if steps > self.STEP_CAP or busy > self.BUSY_CAP:
                     self.capped = True
                     break
+                busy += 1
                 if loop._ready or self._timer_due():
-                    if self.p_enabled and not self.frozen and chooser.remaining("p") > 0:
-                        alts = [Alt("continue", "c", None)] + [a for a in self.enabled(False) if a.kind != "t"]
+                    rp = self.p_enabled and not self.frozen and chooser.remaining("p") > 0
+                    rk = self.k_mid and not self.frozen and chooser.remaining("k") > 0
+                    if rp or rk:
+                        # mid-cascade boundary: with p budget any event may be injected here; with k_mid a kill/stop/flush may be
+                        # placed here at the cost of k alone ("at any point of the run", not only when every task is waiting)
+                        alts = [Alt("continue", "c", None)] + [a for a in self.enabled(False) if a.kind != "t" and (rp or a.kind == "k")]
                         if len(alts) > 1:
                             j = chooser.choose(alts, quiescent=False)
                             if j:
@@ -363,6 +371,7 @@ class World:
                                 alts[j].fn()
                     loop.run_iteration()
                     continue
+                busy = 0  # quiescent: every task is waiting for the environment
                 alts = self.enabled(True)
                 if not alts:
                     raise Deadlock(f"no enabled event at t={self.now()} and main task not finished")
@@ -444,6 +453,12 @@ def execute(scn_factory, params, deviations, bounds, trace=False):
     res.children = chooser.children()
     if getattr(world, "livelock", False):
         res.violations.append(("livelock", {"what": "livelock"}, f"virtual time stopped advancing near t={world.now()}"))
+    elif world.capped:
+        # every scenario bounds itself in virtual time; the clock ticks 1 us per loop iteration, so a run that needs more than
+        # STEP_CAP iterations is code spinning without waiting (e.g. an asyncio.wait() over an already finished task), not a long run
+        res.violations.append(("nontermination", {"what": "step-cap"},
+                               f"run did not finish within {World.STEP_CAP} loop iterations / ran {World.BUSY_CAP} iterations without going quiescent "
+                               f"(t={world.now()}): the code under test spins"))
     if trace:
         res.trace = (world.events, chooser.trace, [c[1] for c in chooser.cps])
         res.world = world
